@@ -14,6 +14,7 @@
 #include "EbPictureBufferDesc.h"
 
 #include "EbDecHandle.h"
+#include "EbVerifHooks.h"
 #include "EbDecBitReader.h"
 #include "EbObuParse.h"
 
@@ -995,6 +996,7 @@ void svt_setup_motion_field(EbDecHandle *dec_handle, DecThreadCtxt *thread_ctxt)
         while (*start_motion_proj != EB_TRUE)
             svt_block_on_semaphore(NULL == thread_ctxt ? dec_handle->thread_semaphore
                                                        : thread_ctxt->thread_semaphore);
+        SVT_VERIF_HB_ACQUIRE(start_motion_proj);
 
         DecMtMotionProjInfo *motion_proj_info = &dec_mt_frame_data->motion_proj_info;
         do_memset                             = EB_FALSE;
@@ -1086,8 +1088,10 @@ void svt_setup_motion_field(EbDecHandle *dec_handle, DecThreadCtxt *thread_ctxt)
 
     if (is_mt) {
         svt_block_on_mutex(dec_mt_frame_data->temp_mutex);
+        SVT_VERIF_HB_RELEASE(&dec_mt_frame_data->num_threads_header);
         dec_mt_frame_data->num_threads_header++;
         if (dec_handle->dec_config.threads == dec_mt_frame_data->num_threads_header) {
+            SVT_VERIF_HB_RELEASE(&dec_mt_frame_data->start_motion_proj);
             dec_mt_frame_data->start_motion_proj = EB_FALSE;
         }
         svt_release_mutex(dec_mt_frame_data->temp_mutex);
@@ -1096,6 +1100,8 @@ void svt_setup_motion_field(EbDecHandle *dec_handle, DecThreadCtxt *thread_ctxt)
         while (*num_threads_header != dec_handle->dec_config.threads &&
                (EB_FALSE == dec_mt_frame_data->end_flag))
             ;
+        SVT_VERIF_HB_ACQUIRE(num_threads_header);
+        SVT_VERIF_HB_ACQUIRE(&dec_mt_frame_data->end_flag);
     }
 }
 
